@@ -277,6 +277,10 @@ def make_md(kind, axis, n):
         return [{key: ['k__A', 'p__B%d' % (k % 2), 's__C%d' % k]} for k in range(n)]
     if kind == 'slash':
         return [{'a/b': 'v%d' % k, 'grp': 'g%d' % (k % 2)} for k in range(n)]
+    if kind == 'precise':
+        # floats that need all their digits (an export that formats with a fixed precision shows here)
+        return [{'ratio': 6.8712345678 + k / 7.0, 'tiny': 1.2345678901234e-7 * (k + 1), 'big': 123456789.123456 + k}
+                for k in range(n)]
     if kind == 'jagged':
         # differing key sets per id (what add_metadata on a subset of the ids leaves behind); the first id lacks 'extra'
         out = []
